@@ -18,7 +18,8 @@ Inductive oevent :=
 | VExtDur (t : Z) (m : oinst) (old new : Z)
 | VExtCnt (t : Z) (m : oinst) (old new : Z).
 
-Definition opout := (Z * list (list (Z * Z * Z * Z * Z)) * list oevent)%type.
+(* result, attached list per unit, per unit (STAT_CTRL in the evaluated flag list, HasFlag STAT_CTRL), events *)
+Definition opout := (Z * list (list (Z * Z * Z * Z * Z)) * list (bool * bool) * list oevent)%type.
 Inductive obs := Obs (l : list opout) | HarnessPanic (msg : string).
 
 Definition case := (world * Z * nat * list op * obs)%type.
@@ -41,13 +42,18 @@ Definition proj_event (w : world) (e : event) : oevent :=
 Definition list_of (s : st) (u : Z) : list (Z * Z * Z * Z * Z) :=
   map (fun m => let i := heap s m in (i_tag i, i_name i, i_src i, i_cnt i, i_dur i)) (map snd (tg s u)).
 
+(* the unit's flags are the union over exactly the attached instances: here the one flag the
+   harness registers (c_flag = BehaviorFlag STAT_CTRL) *)
+Definition flag_of (w : world) (s : st) (u : Z) : bool * bool :=
+  let b := existsb (fun m => c_flag (getcfg w (i_name (heap s m)))) (map snd (tg s u)) in (b, b).
+
 Fixpoint run_obs (w : world) (d : nat) (s : st) (ops : list op) : list opout :=
   match ops with
   | [] => []
   | o :: r =>
       let (s1, res) := step w d s o in
       let new := rev (firstn (List.length (evs s1) - List.length (evs s)) (evs s1)) in
-      (res, map (list_of s1) (unit_ids w), map (proj_event w) new) :: run_obs w d s1 r
+      (res, map (list_of s1) (unit_ids w), map (flag_of w s1) (unit_ids w), map (proj_event w) new) :: run_obs w d s1 r
   end.
 
 Definition model_out (c : case) : list opout :=
@@ -79,8 +85,9 @@ Definition row_eqb (a b : Z * Z * Z * Z * Z) : bool :=
   (a1 =? b1) && (a2 =? b2) && (a3 =? b3) && (a4 =? b4) && (a5 =? b5).
 
 Definition opout_eqb (a b : opout) : bool :=
-  let '(r, ls, es) := a in let '(r', ls', es') := b in
-  (r =? r') && list_eqb (list_eqb row_eqb) ls ls' && list_eqb oevent_eqb es es'.
+  let '(r, ls, fs, es) := a in let '(r', ls', fs', es') := b in
+  (r =? r') && list_eqb (list_eqb row_eqb) ls ls' &&
+  list_eqb (fun x y => Bool.eqb (fst x) (fst y) && Bool.eqb (snd x) (snd y)) fs fs' && list_eqb oevent_eqb es es'.
 
 Definition check_case (c : case) : bool :=
   let '(_, _, _, _, o) := c in
@@ -156,7 +163,7 @@ Definition replaced_ok (w : world) (es : list oevent) (p : Z * Z * Z * Z * Z) : 
 Fixpoint monitor_ops (w : world) (prev : list (list (Z * Z * Z * Z * Z))) (gone : list Z) (l : list opout) : bool :=
   match l with
   | [] => true
-  | (_, ls, es) :: r =>
+  | (_, ls, fs, es) :: r =>
       let rem := removed_tags es in
       let gone' := rem ++ gone in
       let attached := flat_map (map tag_of) ls in
@@ -167,6 +174,10 @@ Fixpoint monitor_ops (w : world) (prev : list (list (Z * Z * Z * Z * Z))) (gone 
       forallb (fun pn => forallb (fun p => zmem (tag_of p) (map tag_of (snd pn)) || zmem (tag_of p) rem ||
                                            replaced_ok w es p) (fst pn)) (combine prev ls) &&
       forallb (fun x => negb (cnt_of x =? 0)) (List.concat ls) &&
+      (* C06: the unit's flag is the union over exactly the attached instances, read either way *)
+      (Z.of_nat (List.length ls) =? Z.of_nat (List.length fs)) &&
+      forallb (fun lf => Bool.eqb (existsb (fun x => c_flag (getcfg w (name_of x))) (fst lf)) (fst (snd lf)) &&
+                         Bool.eqb (fst (snd lf)) (snd (snd lf))) (combine ls fs) &&
       monitor_ops w ls gone' r
   end.
 
